@@ -374,6 +374,50 @@ impl PureDpDiscreteLaplace {
     }
 }
 
+/// Crate-private sampler layers re-exported for the external checker (feature `verif-hooks`).
+/// Nothing here is part of the library's API.
+#[cfg(feature = "verif-hooks")]
+pub mod verif {
+    use super::*;
+
+    /// `UniformBigUint::new(0, bound).sample(rng)`
+    pub fn uniform_below<R: Rng + ?Sized>(bound: &BigUint, rng: &mut R) -> BigUint {
+        UniformBigUint::new(&BigUint::zero(), bound)
+            .unwrap()
+            .sample(rng)
+    }
+
+    /// `sample_bernoulli(num / den)`
+    pub fn bernoulli<R: Rng + ?Sized>(num: BigUint, den: BigUint, rng: &mut R) -> bool {
+        sample_bernoulli(&Ratio::new(num, den), rng)
+    }
+
+    /// `sample_bernoulli_exp1(num / den)`
+    pub fn bernoulli_exp1<R: Rng + ?Sized>(num: BigUint, den: BigUint, rng: &mut R) -> bool {
+        sample_bernoulli_exp1(&Ratio::new(num, den), rng)
+    }
+
+    /// `sample_bernoulli_exp(num / den)`
+    pub fn bernoulli_exp<R: Rng + ?Sized>(num: BigUint, den: BigUint, rng: &mut R) -> bool {
+        sample_bernoulli_exp(&Ratio::new(num, den), rng)
+    }
+
+    /// `sample_geometric_exp(num / den)`
+    pub fn geometric_exp<R: Rng + ?Sized>(num: BigUint, den: BigUint, rng: &mut R) -> BigUint {
+        sample_geometric_exp(&Ratio::new(num, den), rng)
+    }
+
+    /// `sample_discrete_laplace(num / den)`
+    pub fn discrete_laplace<R: Rng + ?Sized>(num: BigUint, den: BigUint, rng: &mut R) -> BigInt {
+        sample_discrete_laplace(&Ratio::new(num, den), rng)
+    }
+
+    /// `sample_discrete_gaussian(num / den)`
+    pub fn discrete_gaussian<R: Rng + ?Sized>(num: BigUint, den: BigUint, rng: &mut R) -> BigInt {
+        sample_discrete_gaussian(&Ratio::new(num, den), rng)
+    }
+}
+
 #[cfg(test)]
 mod tests {
 
